@@ -382,7 +382,7 @@ def selector_pool(rng, tree, cfg, is_obj):
         seen.add(s)
         tags = G.classify_path(tree, p)
         bad = any(t in tags and cfg.get(DEFECT_TAGS[t][0]) == DEFECT_TAGS[t][1] for t in DEFECT_TAGS)
-        if is_obj and ("uppercase-key" in tags and cfg.get("syntax") == "LowerKeys"):
+        if is_obj and ("uppercase-key" in tags and cfg.get("syntax") in ("LowerKeys", "LowerKeysZ")):
             bad = True
         if is_obj and (len(p[0]) < 3 or any(c not in "abcdefghijklmnopqrstuvwxyz0123456789_-" for c in p[0])):
             bad = True
@@ -584,7 +584,7 @@ def check(run):
         "options; add;add, add;remove and the two orders of two adds are generated on purpose. A sequence is non-trivial "
         "when at least two operations did not raise and at least one mutator produced a new version." % max_ops)
     with common.Lock():
-        res = common.build_props("Props/C07.v")
+        res = common.build_props("Props/C07.v", extra_targets=("Model/MarkingsRun.vo",))
         run.add_build(res, "make -C coq Props/C07.vo (coqc 8.16.1, full .vo) + Print Assumptions per theorem")
     cfg, obs = probe_variants(run)
     run.coverage["variant_selected"] = {k: cfg[k] for k in G.CFG_FIELDS if k in cfg}
